@@ -31,6 +31,7 @@ import (
 	"strings"
 	"sync"
 	"sync/atomic"
+	"time"
 
 	"github.com/polynetwork/poly/common"
 	scom "github.com/polynetwork/poly/core/store/common"
@@ -42,6 +43,7 @@ import (
 	"github.com/polynetwork/poly/native/service/governance/node_manager"
 	"github.com/polynetwork/poly/native/service/utils"
 	"verif.local/engine/ev"
+	"verif.local/engine/lib/ccm"
 	"verif.local/engine/lib/probe"
 	"verif.local/engine/polyenv"
 )
@@ -537,7 +539,7 @@ func seedProg(pre refState) []probe.Op {
 func main() {
 	r = ev.Start("C15", "model_checking")
 	r.Require("tx-success", "tx-fail", "tx-fail-after-write", "tx-fail-after-merkleval", "tx-fail-inside-callee",
-		"block-mixed", "committed-block", "real-tx-success", "real-tx-fail")
+		"block-mixed", "committed-block", "real-tx-success", "real-tx-fail", "real-tx-fail-after-writes")
 	vals = polyenv.Keys(4)
 	polyenv.Setup(0, vals)
 	polyenv.InstallHeightLedger()
@@ -568,6 +570,9 @@ func main() {
 	spaceCount := map[string]int64{}
 	var scMu sync.Mutex
 	addCount := func(k string, n int64) { scMu.Lock(); spaceCount[k] += n; scMu.Unlock() }
+	phase := map[string]float64{}
+	t0 := time.Now()
+	lap := func(k string) { phase[k] += time.Since(t0).Seconds(); t0 = time.Now() }
 
 	prestates := []refState{{'a': "A-seed"}, {'b': "B-seed"}}
 	for pi, pre := range prestates {
@@ -585,6 +590,7 @@ func main() {
 			}
 		}
 		tag := fmt.Sprintf("pre%d", pi)
+		lap("open-ledgers")
 		sandbox = make([]*ledgerstore.VerifC15Sandbox, len(pool))
 		for i, w := range pool {
 			sandbox[i] = w.Ch.L.VerifC15NewSandbox()
@@ -621,6 +627,7 @@ func main() {
 			}
 			addCount("A_single_tx_programs(handleTransaction)", n)
 			addCount("A_single_tx_programs(ExecuteBlock)", nReal)
+			lap("A")
 			// doubly nested shape
 			var n2 int64
 			alpha2 := []string{"--", "PA", "GA", "MV", "FL"}
@@ -650,6 +657,7 @@ func main() {
 				r.Capped("spaceA2/" + tag)
 			}
 			addCount("A2_doubly_nested_programs", n2)
+			lap("A2")
 		}
 
 		// ---- Space B: blocks of 2 and 3 transactions, all orders
@@ -679,6 +687,7 @@ func main() {
 			r.Capped("spaceB2/" + tag)
 		}
 		addCount("B_blocks_of_2", nb2)
+		lap("B2")
 		if pi == 0 || r.Thorough() {
 			capped = parallel(pool, func(emit func(any) bool) {
 				for i := range bodies3 {
@@ -699,6 +708,7 @@ func main() {
 				r.Capped("spaceB3/" + tag)
 			}
 			addCount("B_blocks_of_3", nb3)
+			lap("B3")
 		}
 
 		// ---- Space C: really submitted chains
@@ -741,11 +751,14 @@ func main() {
 			}
 			wg.Wait()
 			addCount("C_committed_blocks", nc)
+			lap("C")
 		}
 
 		if pi == 0 {
 			spaceD(pool[0])
 			observations(pool[0], pre)
+			spaceD2(pool[0]) // commits seed blocks on this worker's ledger: must stay the last user of pool[0]
+			lap("D")
 		}
 		probe.ClosePool(pool)
 	}
@@ -781,6 +794,7 @@ func main() {
 		"a callee error swallowed by the caller (Try) is not a failing transaction: observed and recorded in notes, never alarmed")
 	cov["rule"] = "ExecuteResult{WriteSet,CrossHashes,Notify} and post-submit storage/event/cross-state stores == fold of the successful programs only; reads in tx j == committed effects of successful tx<j plus own writes"
 	cov["spaces"] = spaceCount
+	cov["phase_seconds"] = phase
 	cov["bounds"] = map[string]any{"A_max_len": L, "A_sub_len": 2, "A_max_calls": maxCalls, "B_body_alphabet": bodyAlpha, "B_body_len": 2,
 		"B_bodies": len(bodies), "B3_body_alphabet": body3Alpha, "B3_bodies": len(bodies3), "A_ExecuteBlock_max_len": LReal, "block_sizes": "1,2,3", "prestates": len(prestates), "workers": nW}
 	cov["states"] = blocksRun           // distinct blocks executed (each from a committed pre-state)
@@ -1046,4 +1060,130 @@ func observations(w *probe.Worker, pre refState) {
 		r.Note("observation_context_overflow", map[string]any{"nesting": 1030, "tx_state": res.Notify[0].State, "events_kept": len(res.Notify[0].Notify),
 			"comment": "NativeService.Invoke returns (err,nil) when PushContext overflows (>1024 nested calls): reported as success; unreachable with the real contracts (none nests)"})
 	}
+}
+
+// ---------------------------------------------------------------------------------------------
+// Space D2: a REAL native call that fails AFTER it has written: the quorum-reaching vote of a vote-router import
+// whose target chain is blacklisted (consensus_vote.MakeDepositProposal has already stored the vote record and
+// PutDoneTx when ImportExTransfer rejects the blacklisted target). Seed state is really committed; blocks over the
+// menu are dry-run; oracle = metamorphic (deleting the failed transactions changes nothing) + the later successful
+// retry must produce exactly what it produces without the earlier failed attempt.
+func spaceD2(w *probe.Worker) {
+	commit := func(tx *types.Transaction, what string) {
+		polyenv.GlobalHeight = w.Ch.L.GetCurrentBlockHeight()
+		res, _, err := w.Commit([]*types.Transaction{tx})
+		if err != nil || len(res.Notify) != 1 || res.Notify[0].State != event.CONTRACT_STATE_SUCCESS {
+			r.HarnessError("D2 seed %s failed: %v", what, err)
+		}
+	}
+	q := ccm.Quorum(len(vals))
+	owner := polyenv.Key(900)
+	for _, sc := range []ccm.SC{{ID: 11, Router: utils.VOTE_ROUTER, Wait: 1, Name: "src", CCMC: []byte{1}}, {ID: 12, Router: utils.VOTE_ROUTER, Wait: 1, Name: "dst", CCMC: []byte{2}}} {
+		commit(ccm.RegisterTx(sc, owner, uint32(sc.ID)), "registerSideChain")
+		for i := 0; i < q; i++ {
+			commit(ccm.ApproveTx(sc.ID, vals[i], uint32(sc.ID)), "approveRegisterSideChain")
+		}
+	}
+	msg := ccm.MsgBytes(ccm.Msg([]byte{0xaa, 1}, []byte{0xcc, 1}, []byte{0xf0}, 12, make([]byte, 20), "unlock", []byte{1, 2, 3}))
+	msg2 := ccm.MsgBytes(ccm.Msg([]byte{0xaa, 2}, []byte{0xcc, 2}, []byte{0xf0}, 12, make([]byte, 20), "unlock", []byte{4}))
+	for i := 0; i < q-1; i++ {
+		commit(ccm.VoteImport(11, 7, msg, vals[i], uint32(100+i)), "vote")
+	}
+	commit(ccm.BlackTx(12, false, 200, polyenv.Multi(vals)), "blackChain(12)")
+	polyenv.GlobalHeight = w.Ch.L.GetCurrentBlockHeight()
+	last := vals[q-1]
+	menu := []realTx{
+		{"quorum vote, target chain 12 blacklisted (fails after voteInfo+doneTx were written)", func(n uint32) *types.Transaction { return ccm.VoteImport(11, 7, msg, last, 300+n) }},
+		{"whiteChain(12) by operator", func(n uint32) *types.Transaction { return ccm.BlackTx(12, true, 310+n, polyenv.Multi(vals)) }},
+		{"blackChain(12) by operator", func(n uint32) *types.Transaction { return ccm.BlackTx(12, false, 320+n, polyenv.Multi(vals)) }},
+		{"first vote on another message", func(n uint32) *types.Transaction { return ccm.VoteImport(11, 8, msg2, last, 330+n) }},
+		{"probe[GetA PutA MerkleVal]", func(n uint32) *types.Transaction {
+			return probe.Tx([]probe.Op{{C: probe.Get, K: 'a'}, {C: probe.Put, K: 'a', V: fmt.Sprintf("E%d", n)}, {C: probe.Merkle, V: fmt.Sprintf("E%d", n)}}, n, signer)
+		}},
+	}
+	// vacuity: alone, tx 0 fails; after whiteChain it succeeds and emits a cross-chain record
+	r0, e0 := w.Exec([]*types.Transaction{menu[0].mk(1)})
+	r1, e1 := w.Exec([]*types.Transaction{menu[1].mk(1), menu[0].mk(2)})
+	if e0 != nil || e1 != nil || r0.Notify[0].State != event.CONTRACT_STATE_FAIL || r1.Notify[1].State != event.CONTRACT_STATE_SUCCESS || len(r1.CrossHashes) != 1 {
+		r.HarnessError("D2 scenario not as designed: alone=%v afterWhite=%v hashes=%d", r0.Notify[0].State, r1.Notify[1].State, len(r1.CrossHashes))
+	}
+	// the failing attempt really is past its writes: the same call on a world whose target is not blacklisted
+	// writes doneTx/voteInfo/request (3 keys) — and with the blacklist the only difference is the final check
+	if len(probe.WriteSet(r1)) < 4 {
+		r.HarnessError("D2: successful import wrote only %d keys", len(probe.WriteSet(r1)))
+	}
+	r.Class("real-tx-fail-after-writes")
+	depth := 3
+	var nBlocks, nFailAfterWrite int
+	var rec func(seq []int)
+	rec = func(seq []int) {
+		if len(seq) > 0 {
+			txs := make([]*types.Transaction, len(seq))
+			names := make([]string, len(seq))
+			for i, m := range seq {
+				txs[i] = menu[m].mk(uint32(i + 1))
+				names[i] = menu[m].name
+			}
+			res, err := w.Exec(txs)
+			nBlocks++
+			r.Eval()
+			if err != nil || len(res.Notify) != len(txs) {
+				report("D2/execute-block-error", len(seq), map[string]any{"block": names, "err": fmt.Sprint(err)})
+				return
+			}
+			var keep []*types.Transaction
+			var keepIdx []int
+			for i, n := range res.Notify {
+				if n.State == event.CONTRACT_STATE_SUCCESS {
+					keep = append(keep, txs[i])
+					keepIdx = append(keepIdx, i)
+				} else {
+					if seq[i] == 0 {
+						nFailAfterWrite++
+					}
+					if len(n.Notify) != 0 {
+						report("D2/failed-tx/events-kept", len(seq), map[string]any{"block": names, "tx": i})
+					}
+				}
+			}
+			if len(keep) < len(txs) {
+				res2, err2 := w.Exec(keep)
+				r.Eval()
+				if err2 != nil || len(res2.Notify) != len(keep) {
+					report("D2/execute-block-error", len(seq), map[string]any{"block": names, "err": fmt.Sprint(err2)})
+					return
+				}
+				d := map[string]any{"block": names, "indices_of_successful_txs": keepIdx, "seed": "chains 11,12 (vote router) registered; q-1 votes cast; chain 12 blacklisted"}
+				a, b := probe.WriteSet(res), probe.WriteSet(res2)
+				same := len(a) == len(b)
+				for k, v := range a {
+					if bv, ok := b[k]; !ok || bv != v {
+						same = false
+					}
+				}
+				if !same {
+					d["problem"] = fmt.Sprintf("write set differs: %d keys with the failed txs in the block, %d without", len(a), len(b))
+					report("D2/failed-real-tx-changes-writeset", len(seq), d)
+				}
+				if !seqEq(res.CrossHashes, res2.CrossHashes) {
+					d["problem"] = map[string]any{"with": hx(res.CrossHashes), "without": hx(res2.CrossHashes)}
+					report("D2/failed-real-tx-changes-crosshashes", len(seq), d)
+				}
+				for j, i := range keepIdx {
+					if jsonNotify(res.Notify[i]) != jsonNotify(res2.Notify[j]) {
+						d["problem"] = map[string]any{"tx": i, "with": jsonNotify(res.Notify[i]), "without": jsonNotify(res2.Notify[j])}
+						report("D2/failed-real-tx-changes-other-tx-outcome", len(seq), d)
+					}
+				}
+			}
+		}
+		if len(seq) == depth {
+			return
+		}
+		for m := range menu {
+			rec(append(append([]int{}, seq...), m))
+		}
+	}
+	rec(nil)
+	r.Note("D2_real_fail_after_write_blocks", map[string]int{"blocks": nBlocks, "failing_quorum_votes_executed": nFailAfterWrite, "max_len": depth})
 }
